@@ -12,8 +12,7 @@ SPEC = {
     "trusted_base": ["Model/ExUnits.lean is a hand transcription of check_tx_ex_units + presence_of_plutus_scripts of alonzo.rs, "
                      "babbage.rs, conway.rs; tie = stream `exunits` (verdict class compared per op, per-rule and whole-transaction)",
                      "harness/src/fixtures (ported test data of pallas-validate/tests)"],
-    "assumptions": ["dev profile: u64 accumulator overflow is a panic (model verdict `panic`, never `ok`); in a release build the same "
-                    "addition wraps and could let an over-budget sum pass - arithmetic totality is C33's subject",
+    "assumptions": ["a redeemer sum that leaves u64 is TxExUnitsExceeded (checked_add since the C33 fix), in every build profile",
                     "CBOR decoding of the witness set (Redeemers list/map, script sets) is pallas-primitives' and is outside this model"],
     "explanation": "Self-tests run: (1) Babbage `if mem > max.mem` only (steps comparison dropped) -> VIOLATION with replay "
                    "(exunits-over-budget era=babbage); (2) Conway loops reverted to the lazy `.iter().map()` -> VIOLATION; "
